@@ -196,6 +196,19 @@ func c18GenFile(prev []c18Item) []c18Item {
 	return items
 }
 
+// c18KVKeys lists the keys a version of the file sets.
+//
+//go:norace
+func c18KVKeys(d *c18Data) []string {
+	var out []string
+	for _, it := range d.cur {
+		if it.Kind == "kv" {
+			out = append(out, it.Key)
+		}
+	}
+	return out
+}
+
 // ---- independent reference for typed getters ----
 
 func refTokens(s, deli string) []string {
@@ -604,6 +617,44 @@ func c18Body(rc *RunCtx) {
 				simrt.SetOp(0)
 				if d.inWB != nil {
 					simrt.Probe("reader_ran_inside_writeback")
+				}
+			}
+		})
+		tasks = append(tasks, tk)
+	}
+	if !doWB && simrt.ChanceF(1, 3) {
+		// a reader that is busy exactly while a reload is under way: it parks until the
+		// configuration file is opened for reading (the reload has seen a change and is about to
+		// parse and install it) and then issues a burst of getter calls, the schedule deciding
+		// how they interleave with the steps of the reload
+		var reloadWait []*simrt.Task
+		disk.OnOpen = func(p string, flag int) {
+			if p == d.path && flag&(simos.O_WRONLY|simos.O_RDWR) == 0 {
+				for _, t := range reloadWait {
+					simrt.MakeRunnable(t)
+				}
+				reloadWait = nil
+			}
+		}
+		rid := 9
+		tk := simrt.GoNamed("reader-at-reload", func() {
+			for round := 0; round < 6 && !stop; round++ {
+				simrt.SleepOrWake(12*time.Second, &reloadWait)
+				n := 2 + simrt.ChooseF(5)
+				for i := 0; i < n && !stop; i++ {
+					gname := c18Getters[simrt.ChooseF(len(c18Getters))]
+					key := c18Keys[simrt.ChooseF(len(c18Keys))]
+					if kv := c18KVKeys(d); len(kv) > 0 && simrt.ChanceF(3, 4) {
+						key = kv[simrt.ChooseF(len(kv))]
+					}
+					g := &c18Get{Getter: gname, Key: key, Def: c18Def(gname), Task: rid}
+					d.addGet(g)
+					simrt.SetOp(len(d.Gets))
+					g.Call = simrt.Stamp()
+					g.Out = c18Call(cfg, gname, key, g.Def)
+					g.Return = simrt.Stamp()
+					simrt.SetOp(0)
+					simrt.Probe("getter_during_reload_burst")
 				}
 			}
 		})
